@@ -5,6 +5,9 @@
 # and the file is restored with git checkout. "fail" mutants must produce a VIOLATION line,
 # "pass" mutants (harmless refactors) must not.
 cd "$(dirname "$0")/.."
+if [ -n "$(git -C /repo status --porcelain --untracked-files=no)" ]; then
+  echo "refusing to run: /repo has uncommitted changes to tracked files (they would be lost by git checkout)"; exit 2
+fi
 FILTER="${1:-.}"
 ok=0; bad=0
 while IFS=$'\t' read -r prop file subst expect note; do
